@@ -150,7 +150,12 @@ def cases(tier, seed):
         out_rest.append({"kind": "volume", "impl": IMPLS[i % 2], "target": _tspec(rnd, [t for t in _TSPECS if t["dim"] <= 3]),
                          "f": rnd.choice([0.1, 0.3, 0.6]), "L": rnd.choice([1, 2, 3, 5]), "sseed": rnd.randrange(10 ** 6)})
     rnd.shuffle(out_rest)
-    # expensive cases first so that the modulo sharding spreads them evenly
+    # expensive cases first, in serpentine order of estimated cost, so that the modulo sharding (16 workers) balances them
+    out_stat.sort(key=lambda c: (-c["K"] * c["k"] * (2 ** (c["max_depth"] + 1) - 1), c["sseed"]))
+    out_law.sort(key=lambda c: (-(2 ** (c["max_depth"] + 1)), c["sseed"]))
+    for lst in (out_stat, out_law):
+        for a in range(16, len(lst), 32):
+            lst[a:a + 16] = lst[a:a + 16][::-1]
     allc = out_stat + out_law + out_rest
     only = os.environ.get("VERIF_C08_KINDS")      # development knob (mutation runs): restrict to some case kinds
     if only:
